@@ -43,7 +43,8 @@ void COSyncInit(CO_SYNC *sync, struct CO_NODE_T *node)
         sync->TNum[i]  = 0;
     }
     for (i = 0; i < CO_RPDO_N; i++) {
-        sync->RPdo[i]  = (CO_RPDO *)0;
+        sync->RPdo[i]            = (CO_RPDO *)0;
+        sync->RFrm[i].Identifier = 0;
     }
 }
 
@@ -92,7 +93,9 @@ void COSyncRx(CO_SYNC *sync, CO_IF_FRM *frm)
             for (n=0; n < 8; n++) {
                 sync->RFrm[i].Data[n] = frm->Data[n];
             }
-            sync->RFrm[i].DLC = frm->DLC;
+            sync->RFrm[i].DLC        = frm->DLC;
+            /* mark the buffered frame as pending for the next SYNC */
+            sync->RFrm[i].Identifier = frm->Identifier;
             break;
         }
     }
@@ -143,8 +146,10 @@ void COSyncHandler (CO_SYNC *sync)
     }
 
     for (i = 0; i < CO_RPDO_N; i++) {
-        if (sync->RPdo[i] != 0) {
+        if ((sync->RPdo[i] != 0) &&
+            (sync->RFrm[i].Identifier != 0)) {
             CORPdoWrite(sync->RPdo[i], &sync->RFrm[i]);
+            sync->RFrm[i].Identifier = 0;
             COPdoSyncUpdate(sync->RPdo[i]);
         }
     }
